@@ -11,4 +11,7 @@ MUTANTS = [
     M('C09', 'EQ hex input_dec clears one hex less of its digit register (the top hex is only ever read)', 'flipjump/stl/hex/input.fj', "        .zero n, digit\n", "        .zero n-1, digit\n", None, count=2),
     M('C09', 'bit2hex n clears only the full hexes (seed C09_2)', 'flipjump/stl/casting.fj', "        hex.zero (n+3)/4, hex", "        hex.zero n/4, hex", 'C09.SCRATCH'),
     M('C09', 'hex2bit no longer clears the destination bits', 'flipjump/stl/casting.fj', "        bit.zero 4, bit\n", "", 'C09.SCRATCH'),
+    M('C09', 'hex.output falls off its end with the jump word in the switch', 'flipjump/stl/hex/output.fj', "        stl.IO+1;print_c+1*dw\n\n      end:\n        wflip hex+w, switch\n", "        stl.IO+1;print_c+1*dw\n\n      end:\n", 'C09.JW-RESTORE'),
+    M('C09', 'input_as_hex: the out-of-range entries leave to error directly (seed C09_3)', 'flipjump/stl/hex/input.fj', "        ;hex_switch                     //  7\n", "        ;error                          //  7\n", 'C09.JW-RESTORE'),
+    M('C09', 'ascii2hex compares against a 4-bit nine spelled as 25', 'flipjump/stl/bit/casting.fj', "        .vec 5, 0x60>>3", "        .vec 4, 0x60>>1", 'C09.CONST-FITS'),
 ]
